@@ -29,7 +29,9 @@
 (*   ok         every optimised build of the group that could be evaluated *)
 (*              prints the reference run's lines and ends the same way     *)
 (*   excluded   the reference run is implementation-defined (overflow,     *)
-(*              division by zero, toInt, ...) or exceeds the budget/depth  *)
+(*              division by zero, toInt, ...), exceeds the budget/depth,   *)
+(*              or the raw MIR itself is malformed (it calls a function    *)
+(*              that is not defined: C03's subject)                        *)
 (*   violation  some build's run differs; `first` is the first such build  *)
 (*              in pipeline order (stage localisation)                     *)
 (*   tool       the evaluator could not evaluate the reference run         *)
@@ -76,7 +78,8 @@ Agrees(r, backend, ref) ==
           ELSE IF run.out = ref.out /\ e = ref.end THEN "same" ELSE "differs"
 
 \* ---- comparing two evaluated runs ----------------------------------------------------------
-Decided(end) == end.k \in {"return", "panic", "vecbounds", "trap"}
+\* (an optimised build that runs into a call of a function it no longer defines has changed the behaviour)
+Decided(end) == end.k \in {"return", "panic", "vecbounds", "trap", "malformed"}
 IsPrefixOf(xs, ys) == Len(xs) <= Len(ys) /\ SubSeq(ys, 1, Len(xs)) = xs
 FirstDiff(xs, ys) ==
   LET n == IF Len(xs) < Len(ys) THEN Len(xs) ELSE Len(ys)
@@ -117,8 +120,8 @@ Judge(r, c) ==
   ELSE
   LET raw == r.builds["raw"]
       ref == Run(r.lib, raw.fns, raw.main, BudgetOf(r), MaxDepth, TRUE, ProfileOf(r))
-  IN IF ref.end.k \in {"impl", "cut"} THEN Base(r, c, "excluded", ref.end.k \o ":" \o ref.end.m, ref)
-     ELSE IF ~Decided(ref.end) THEN Base(r, c, "tool", ref.end.k \o ":" \o ref.end.m, ref)
+  IN IF ref.end.k \in {"impl", "cut", "malformed"} THEN Base(r, c, "excluded", ref.end.k \o ":" \o ref.end.m, ref)
+     ELSE IF ref.end.k \notin {"return", "panic", "vecbounds"} THEN Base(r, c, "tool", ref.end.k \o ":" \o ref.end.m, ref)
      ELSE LET js == [i \in 1..Len(Group(r, c)) |-> JudgeBuild(r, r.order[Group(r, c)[i]], ref)]
               bs == IF Len(Group(r, c)) = 0 THEN <<>> ELSE <<>> \o js
               bad == SelectSeq(bs, LAMBDA j : j.v = "differs")
